@@ -159,7 +159,7 @@ func cmdCheck(args []string) int {
 				return 3
 			}
 			sums = append(sums, s)
-			fmt.Printf("[%s] %-44s %-12s paths=%d queries=%d unknown=%d solver=%.1fs wall=%.1fs %v\n", id, h.Fn, s.Verdict, s.Paths, s.Queries, s.Unknown, s.SolverTimeS, s.WallS, s.Outcomes)
+			fmt.Printf("[%s] %-44s %-12s paths=%d queries=%d unknown=%d redecided=%d/%d solver=%.1fs wall=%.1fs %v\n", id, h.Fn, s.Verdict, s.Paths, s.Queries, s.Unknown, s.FallbackOK, s.Fallbacks, s.SolverTimeS, s.WallS, s.Outcomes)
 			for k, n := range s.Problems {
 				fmt.Printf("    problem x%d: %s\n", n, k)
 			}
@@ -527,6 +527,7 @@ func replayViolation(spec *checkSpec, path string) int {
 
 func writeEvidence(id, tier string, seed int, spec *checkSpec, sums []*interp.Summary, viol []violRec, knownSeen map[string]bool, validated int, wall time.Duration) {
 	paths, decisions, queries, unsat, sat, unknown := 0, 0, 0, 0, 0, 0
+	fallbacks, fallbackOK := 0, 0
 	solverT := 0.0
 	funcs := map[string]bool{}
 	var perH []map[string]any
@@ -540,6 +541,8 @@ func writeEvidence(id, tier string, seed int, spec *checkSpec, sums []*interp.Su
 		unsat += s.Unsat
 		sat += s.Sat
 		unknown += s.Unknown
+		fallbacks += s.Fallbacks
+		fallbackOK += s.FallbackOK
 		solverT += s.SolverTimeS
 		for _, f := range s.Funcs {
 			funcs[f] = true
@@ -553,6 +556,7 @@ func writeEvidence(id, tier string, seed int, spec *checkSpec, sums []*interp.Su
 		perH = append(perH, map[string]any{
 			"harness": s.Harness, "verdict": s.Verdict, "paths": s.Paths, "outcomes": s.Outcomes,
 			"queries": s.Queries, "unsat": s.Unsat, "sat": s.Sat, "unknown": s.Unknown,
+			"fallback_queries": s.Fallbacks, "fallback_queries_decided": s.FallbackOK, "fallback_decided_by": s.FallbackBy, "fallback_time_s": s.FallbackS,
 			"solver_time_s": s.SolverTimeS, "wall_s": s.WallS, "reach_witnesses": s.Reached,
 			"assertions_proved_per_path": s.AssertsOK, "assertions_unknown": s.AssertsUnk,
 			"problems": s.Problems, "bounds": s.Bounds, "max_decision_depth": s.MaxDecDepth,
@@ -597,9 +601,10 @@ func writeEvidence(id, tier string, seed int, spec *checkSpec, sums []*interp.Su
 			"rule":                          "states = execution paths of the real SSA explored symbolically (each path = one solver-decided class of inputs); transitions = solver-decided branch decisions; every assertion is discharged by an SMT query per path over all inputs of that class, within the bounds listed per harness",
 			"functions_encoded":             fl,
 			"harnesses":                     perH,
-			"queries_discharged":            map[string]any{"total": queries, "unsat": unsat, "sat": sat, "unknown": unknown, "assertion_checks_proved": assertsOK},
+			"queries_discharged":            map[string]any{"total": queries, "unsat": unsat, "sat": sat, "unknown": unknown, "assertion_checks_proved": assertsOK,
+				"redecided_by_fresh_solver": fallbackOK, "fresh_solver_attempts": fallbacks},
 			"solver_time_s":                 solverT,
-			"solver":                        "z3 5.1.0 (z3-new; one persistent `-in` process per worker, push/pop), fallback z3 4.8.12",
+			"solver":                        "z3 5.1.0 (z3-new; one persistent `-in` process per worker, push/pop; system z3 4.8.12 if z3-new is missing); a query the incremental process answers unknown is re-decided from scratch by one-shot z3 5.1.0, z3 4.8.12 and cvc5 1.0 processes run concurrently (first definite answer; a sat model must be confirmed by the incremental process); queries that stay unknown are counted under unknown",
 			"encoding_notes":                nl,
 			"outside_claim":                 spec.Outside,
 			"known_findings_reproduced":     kf,
